@@ -43,6 +43,33 @@ type Finding struct {
 
 var allFindings []*Finding
 
+// Undecided obligations: true statements that the contracts in place cannot prove on the unchanged tree.
+// They are reported in the evidence, never counted as discharged and never reported as violations.
+type Undecided struct {
+	Property   string `json:"property"`
+	Obligation string `json:"obligation"`
+	Reason     string `json:"reason"`
+}
+
+func loadUndecided() map[string]*Undecided {
+	out := map[string]*Undecided{}
+	data, err := os.ReadFile(filepath.Join(verifRoot(), "undecided.jsonl"))
+	if err != nil {
+		return out
+	}
+	for _, line := range strings.Split(string(data), "\n") {
+		line = strings.TrimSpace(line)
+		if line == "" || strings.HasPrefix(line, "#") {
+			continue
+		}
+		var u Undecided
+		if err := json.Unmarshal([]byte(line), &u); err == nil {
+			out[u.Property+"|"+u.Obligation] = &u
+		}
+	}
+	return out
+}
+
 func verifRoot() string {
 	if d := os.Getenv("GOVC_ROOT"); d != "" {
 		return d
@@ -262,6 +289,8 @@ func report(p *Program, id string, cfg *PropCfg, res *checkResult, tier string, 
 			open[f.Obligation] = f
 		}
 	}
+	undec := loadUndecided()
+	var undecidedNow []string
 	total, discharged := 0, 0
 	bySolver := map[string]int{}
 	solverSecs := 0.0
@@ -303,6 +332,10 @@ func report(p *Program, id string, cfg *PropCfg, res *checkResult, tier string, 
 					}
 					continue
 				}
+			}
+			if u, ok := undec[id+"|"+o.Name]; ok && o.Status == "unknown" {
+				undecidedNow = append(undecidedNow, o.Name+": "+u.Reason)
+				continue
 			}
 			total++
 			if o.Status == "proved" {
@@ -384,6 +417,7 @@ func report(p *Program, id string, cfg *PropCfg, res *checkResult, tier string, 
 		"solver_seconds":           solverSecs,
 		"unmodelled_calls":         sortedKeys(unmod),
 		"known_findings_matched":   known,
+		"undecided_not_counted":    undecidedNow,
 		"samples":                  samples,
 		"scope":                    cfg.Scope,
 		"integers":                 "mathematical (unbounded); machine ranges assumed on inputs, overflow is an explicit obligation where safemath is used (A-INT)",
